@@ -281,7 +281,13 @@ func (m *lm) oracleC01(i int, prev *sim.Snap, prevConf map[ref.Hash]struct{}, s 
 					allParentsGone = false
 				}
 			}
+			// is the issuer already overdrawn over the checkpointed set alone? (only possible through a merge of
+			// conflicting spends - C02's known finding - or the trusted exemption); truncation then clips the
+			// negative net to the gross inflow and hands funds back
+			stIn, stOut := m.w.Arch.Flow(s.StoredSet(), v.Transaction.IssuerAddress)
 			switch {
+			case stIn.Cmp(stOut) < 0:
+				sig = "checkpoint-clips-overdrawn-wallet"
 			case stored && !m.isStoredBefore(prev, h):
 				sig = "overdraw-checkpointed"
 			case allParentsGone && m.truncated[i]:
@@ -520,6 +526,9 @@ func (m *lm) oracleC02(opDesc string) {
 			sig := "wallet-overdrawn"
 			if allCovered && concurrent {
 				sig = "merge-double-spend"
+				if m.cfg.Serialized {
+					sig = "double-spend-in-serialized-mode" // excluded by construction there: must never happen
+				}
 				m.tainted = true
 			}
 			m.addViol("C02", sig, "node %d at quiescence after %s: over all confirmed vertices wallet %s (#%d) received %s but spent %s (%d confirmed spends; each individually covered in its own history: %v; some pair not ancestor-related: %v)", i, opDesc, k.Name, wi, in, out, len(spends), allCovered, concurrent)
@@ -585,14 +594,18 @@ func (m *lm) opPropose() string {
 	n := m.pickNode("pNode")
 	from := m.pickSpender("pFrom")
 	if m.cfg.Serialized {
-		// only wallets whose last spend is confirmed on every node
+		// a wallet spends again only when, on every node, every tip descends from its previous spend: then all
+		// spends of one wallet are ancestor-related and the merge double-spend cannot arise by construction
 		if h, ok := m.lastSpend[from]; ok {
 			for i := range m.w.Nodes {
-				if _, c := m.conf[i][h]; !c {
-					m.label("c02:serialized-skip")
-					return ""
+				for t := range m.snaps[i].Tips() {
+					if _, desc := m.w.Arch.Anc(t)[h]; !desc && t != h {
+						m.label("c02:serialized-skip")
+						return ""
+					}
 				}
 			}
+			m.label("c02:serialized-respend")
 		}
 	}
 	to := m.pickReceiver("pTo", from)
@@ -976,6 +989,10 @@ func (m *lm) judgeBalance(n int, s *sim.Snap, addr, name string, got spice.Melan
 		fts = append(fts, ft{t, val, in})
 	}
 	if err != nil {
+		if len(tips) == 0 {
+			m.label("c06:no-tip")
+			return // "over one current tip": a ledger without any tip has no defined answer
+		}
 		if anyNeg {
 			m.label("c06:error-for-negative")
 			return
